@@ -141,6 +141,8 @@ pub struct Opts {
     pub local_hash: [u8; 8],
     /// restrict to the tags a current OTP release emits over distribution
     pub modern_only: bool,
+    /// atoms that are written as ATOM_CACHE_REF <position in the distribution header>
+    pub atom_refs: Option<std::collections::HashMap<String, u8>>,
 }
 
 impl Default for Opts {
@@ -149,6 +151,7 @@ impl Default for Opts {
             allow_local: false,
             local_hash: [0xA5, 1, 2, 3, 4, 5, 6, 0x5A],
             modern_only: false,
+            atom_refs: None,
         }
     }
 }
@@ -175,6 +178,13 @@ fn is_latin1(s: &str) -> bool {
 }
 
 pub fn encode_atom(o: &mut Vec<u8>, a: &str, ch: &mut dyn Chooser, opts: &Opts) -> Result<(), EncErr> {
+    if let Some(refs) = &opts.atom_refs {
+        if let Some(pos) = refs.get(a) {
+            o.push(82);
+            o.push(*pos);
+            return Ok(());
+        }
+    }
     let b = a.as_bytes();
     if b.len() > 65535 {
         return Err(EncErr::Inexpressible("atom > 65535 bytes"));
@@ -628,5 +638,5 @@ pub fn ref_encode(v: &Val, ch: &mut dyn Chooser, opts: &Opts) -> Result<Vec<u8>,
 }
 
 pub fn ref_encode_canonical(v: &Val) -> Result<Vec<u8>, EncErr> {
-    ref_encode(v, &mut Canonical, &Opts { modern_only: false, ..Opts::default() })
+    ref_encode(v, &mut Canonical, &Opts::default())
 }
